@@ -765,7 +765,7 @@ package eval
 //@        (allocated (fld $cc CompileOptions)) (allocated (fld $cc CostsMap)) (allocated (fld $cc StatelessOperators))))
 //@   ensures [private-config] (and (not (= $ret0 0)) (fresh $ret0) (not (= (fld $ret0 conf) 0)) (fresh (fld $ret0 conf)) (not (= (fld $ret0 conf) $cc))
 //@        (fresh (fld (fld $ret0 conf) CompileOptions)) (fresh (fld (fld $ret0 conf) ConstantMap)) (fresh (fld (fld $ret0 conf) VariableKeyMap)) (fresh (fld (fld $ret0 conf) OperatorMap)) (fresh (fld (fld $ret0 conf) CostsMap)))
-//@   ensures [ready] (and (PARSER $ret0) (= (fld $ret0 source) $source) (= (len (fld $ret0 tokens)) 0) (= (fld $ret0 idx) 0))
+//@   ensures [ready] (and (PARSER $ret0) (= (fld $ret0 source) $source))
 //@   ensures [same-options] (and (SAMEDOM (fld $ret0 conf) $cc CompileOptions) (SAMEVAL (fld $ret0 conf) $cc CompileOptions))
 //@   ensures [same-operators] (and (SAMEDOM (fld $ret0 conf) $cc OperatorMap) (SAMEVAL (fld $ret0 conf) $cc OperatorMap))
 //@   ensures [same-varkeys] (and (SAMEDOM (fld $ret0 conf) $cc VariableKeyMap) (SAMEVAL (fld $ret0 conf) $cc VariableKeyMap))
